@@ -986,6 +986,62 @@ func typeAssert(i *interpreter, instr *ssa.TypeAssert, itf iface) value {
 	return v
 }
 
+// dupAgg returns a copy of v that shares no struct or array storage with it.
+func dupAgg(v value) value {
+	switch v := v.(type) {
+	case structure:
+		a := make(structure, len(v))
+		for i := range v {
+			a[i] = dupAgg(v[i])
+		}
+		return a
+	case array:
+		a := make(array, len(v))
+		for i := range v {
+			a[i] = dupAgg(v[i])
+		}
+		return a
+	}
+	return v
+}
+
+// assignAgg stores v into *dst the way an assignment does: existing aggregate
+// storage is overwritten in place, so pointers into it stay valid.
+func assignAgg(dst *value, v value) {
+	switch v := v.(type) {
+	case structure:
+		if d, ok := (*dst).(structure); ok && len(d) == len(v) {
+			for i := range v {
+				assignAgg(&d[i], v[i])
+			}
+			return
+		}
+	case array:
+		if d, ok := (*dst).(array); ok && len(d) == len(v) {
+			for i := range v {
+				assignAgg(&d[i], v[i])
+			}
+			return
+		}
+	}
+	*dst = v
+}
+
+func dupAggs(vs []value) []value {
+	if len(vs) == 0 {
+		return vs
+	}
+	switch vs[0].(type) {
+	case structure, array:
+		out := make([]value, len(vs))
+		for i, v := range vs {
+			out[i] = dupAgg(v)
+		}
+		return out
+	}
+	return vs
+}
+
 type sliceDataPtr struct{ s []value }
 type stringDataPtr struct{ s value }
 
@@ -1005,15 +1061,32 @@ func callBuiltin(caller *frame, callpos token.Pos, fn *ssa.Builtin, args []value
 			arg0 := args[0].([]value)
 			return append(arg0, strBytes(args[1])...)
 		}
-		// append([]T, ...[]T) []T
-		return append(args[0].([]value), args[1].([]value)...)
+		// append([]T, ...[]T) []T: elements of aggregate type are values, not references
+		return append(args[0].([]value), dupAggs(args[1].([]value))...)
 
 	case "copy": // copy([]T, []T) int or copy([]byte, string) int
 		src := args[1]
 		if isStr(src) {
 			return copy(args[0].([]value), strBytes(src))
 		}
-		return copy(args[0].([]value), src.([]value))
+		dst, srcs := args[0].([]value), src.([]value)
+		n := len(dst)
+		if len(srcs) < n {
+			n = len(srcs)
+		}
+		if n > 0 {
+			if _, agg := srcs[0].(structure); !agg {
+				if _, agg = srcs[0].(array); !agg {
+					return copy(dst, srcs)
+				}
+			}
+			// aggregates: copy element-wise (memmove semantics for overlapping slices)
+			tmp := dupAggs(srcs[:n])
+			for k := 0; k < n; k++ {
+				assignAgg(&dst[k], tmp[k])
+			}
+		}
+		return n
 
 	case "close": // close(chan T)
 		ch, _ := args[0].(*schan)
